@@ -30,6 +30,35 @@ CLAIMED = {
    technique="contract-based deductive verification: weakest-precondition style VCs from the typed Go AST, discharged by z3/cvc5"),
 }
 
+JOINFUNCS = "New, main, loop, loopUntimeouted, process, pass, send, prepareItem, resetJoin, resetPassAt, isTimeouted, calcInterruptInterval (+ forward in unite, + the stop/unreleased paths in v1) of v2/join, v2/join/unite and v1 join"
+CLAIMED.update({
+ "C03": dict(category="proof",
+   text="Every function of the three join/unite goroutines is under contract (" + JOINFUNCS + "). Ghost sequence gIn records every received element; the send-event hook on the output channel requires: slice non-empty, length <= JoinSize (unite: > JoinSize only if it is exactly the pending input slice), contents equal gIn at the delivery position with no gap; the close hook requires 'input observed closed and everything delivered' (v1: or a stop was taken). The ticker case may fire at any select, inputs are arbitrary, so all arrival/timeout interleavings are covered. Slices, append (in place vs reallocation) and slices.Clone are modelled on a heap of backing arrays.",
+   design_ref="DESIGN.md §7 C03, Appendix D",
+   note=TB + "Go channel FIFO/exactly-once semantics; ghost initial state and allocatable sizes are preconditions of New.",
+   technique='contract-based deductive verification with ghost event hooks on channel/clock operations and heap-ownership hooks; loop invariants; z3/cvc5'),
+ "C08": dict(category="proof",
+   text="Ownership proof: every heap write into a backing array (append in place, copy, element store) carries the obligation 'array not handed to the consumer (gOwned) and not on loan (gLent)'. Copy mode: the delivered array is the fresh result of slices.Clone, distinct from the buffer and from every earlier output (allocation counter). No-copy mode: the array is on loan from the send until the release receive; send requires nothing on loan, so no output in between. v1: after a stop while waiting for the release the loan is permanent (unreleased => gLent == buffer array) and process/pass must prove they neither write nor send.",
+   design_ref="DESIGN.md §7 C08",
+   note=TB + "granularity is whole backing arrays (the code never hands out a sub-slice); Go memory model for channel hand-off.",
+   technique='contract-based deductive verification with ghost event hooks on channel/clock operations and heap-ownership hooks; loop invariants; z3/cvc5'),
+ "C09": dict(category="proof",
+   text="Send-event hook: without a timeout a slice is full (join: len == JoinSize; unite: len >= JoinSize or the pending input slice does not fit) unless the input was closed; with a timeout a non-maximal, non-final slice requires clock - lastDelivery >= Timeout, proved from isTimeouted's contract and the invariant lastDelivery <= passAt <= clock.",
+   design_ref="DESIGN.md §7 C09",
+   note=TB + "relative to the clock axioms (monotonic time.Now/Since).",
+   technique='contract-based deductive verification with ghost event hooks on channel/clock operations and heap-ownership hooks; loop invariants; z3/cvc5'),
+ "C10": dict(category="proof",
+   text="Code-side lemmas of the flush bound, each a discharged obligation: (a) calcInterruptInterval returns interval > 0 with interval * floor(100/inaccuracy) <= timeout, exactly timeout div floor(100/inaccuracy), errors exactly in the documented cases (full domain, nonlinear arithmetic); (b) the timeout timer passAt is restarted only when the buffer is empty, so every buffered element was accepted at or after passAt; (c) isTimeouted is true iff clock - passAt >= Timeout and pass() then empties the buffer; (d) the ticker period is exactly interruptInterval. NOT decided: the wall-clock bound itself, which also needs the runtime to deliver ticks on time and select not to starve the ticker case.",
+   design_ref="DESIGN.md §7 C10, §9",
+   note=TB + "partial: the wall-clock bound rests on two runtime facts (timely ticks, fair select) that no contract can express.",
+   technique='contract-based deductive verification with ghost event hooks on channel/clock operations and heap-ownership hooks; loop invariants; z3/cvc5'),
+ "C11": dict(category="proof",
+   text="Ghost input boundaries gB/gBprev (positions in the flattened input where the last two input slices end) are set by the receive event; the send hook requires that every output slice ends at one of them and that a big (>= JoinSize) input slice starts its own output; with C03's content clause this is contiguity of every input slice inside one output slice. Empty inputs produce no send event.",
+   design_ref="DESIGN.md §7 C11",
+   note=TB + "Go channel semantics.",
+   technique='contract-based deductive verification with ghost event hooks on channel/clock operations and heap-ownership hooks; loop invariants; z3/cvc5'),
+})
+
 NA = {
  "C19": "termination of goroutines over all schedules is a liveness property; the VC generator proves partial correctness of sequential code only (DESIGN.md §9)",
 }
